@@ -4,7 +4,8 @@
 `Exchange::send_with` / `Sender::tx` / `OwnedSender::tx` produce a retransmission by running the
 message builder AGAIN; `Session::pre_send` gives it the message counter of the original (= the same
 nonce). Since repo fix `C15-retransmission-rebuilt-differs`, `TxMessage::complete` computes a digest
-of (protocol id, opcode, payload) of what the builder produced, the retransmission entry
+of (reliable flag, protocol id, opcode, payload) of what the builder produced (the reliable flag since repo fix
+`C15-retransmission-reliable-flag-differs`), the retransmission entry
 (`RetransEntry::payload_digest`) remembers the digest of the first transmission, and a rebuilt
 message with another digest is refused (`ErrorCode::Invalid`, nothing is handed to the transport, the
 caller's send loop ends with that error).
